@@ -653,6 +653,8 @@ class World:
         chunk = max(self.chunk, len(data) // 24 + 1)
         pieces = [data[i:i + chunk] for i in range(0, len(data), chunk)] or [b""]
         failed_quietly = False
+        if self.knobs.get("multipart") and len(pieces) > 1:
+            return self._sim_download_multipart(uri, filepath, NotFound, pieces, kind, fault)
         with open(filepath, "wb") as f:
             for i, piece in enumerate(pieces):
                 if kind in ("ERR_MID", "RET_FALSE_MID", "INTERRUPT_MID", "NOTFOUND_MID") and i == min(fault.get("k", 1), len(pieces) - 1):
@@ -681,6 +683,27 @@ class World:
             raise self._err_type()("injected: error after the last byte of %s" % uri)
         if self.knobs.get("ret_style", "true") == "none":
             return None  # many user-written download functions simply do not return anything
+        return True
+
+    def _sim_download_multipart(self, uri, filepath, NotFound, pieces, kind, fault):
+        """A download function that fetches the object in parts and appends each part with its own open(..., 'ab')
+        (the first with 'wb'): the target is re-opened in a creating mode several times during one attempt."""
+        for i, piece in enumerate(pieces):
+            if kind in ("ERR_MID", "RET_FALSE_MID", "INTERRUPT_MID", "NOTFOUND_MID") and i == min(fault.get("k", 1), len(pieces) - 1):
+                if kind == "RET_FALSE_MID":
+                    return False
+                if kind == "NOTFOUND_MID":
+                    raise NotFound("sim resource lost object %s part-way" % uri)
+                if kind == "INTERRUPT_MID" and self.sched.current is self.sched.client:
+                    raise KeyboardInterrupt()
+                raise self._err_type()("injected: connection lost part-way through %s" % uri)
+            with open(filepath, "wb" if i == 0 else "ab") as f:
+                f.write(piece)
+            self.sched("net.chunk", uri, len(piece))
+        if kind == "ERR_AFTER":
+            raise self._err_type()("injected: error after the last byte of %s" % uri)
+        if self.knobs.get("ret_style", "true") == "none":
+            return None
         return True
 
     def http_get(self, url, **kwargs):
